@@ -14,15 +14,15 @@ namespace SoyVerif.Lemmas.ParserSafe
 open SoyVerif SoyVerif.Model SoyVerif.Model.Parser SoyVerif.Model.FileParser
 
 section
-variable {AP EL : Prop} {S : Item → Prop} (hz : S Item.zero)
+variable {AP : Prop} {EL : Lvl} {S : Item → Prop} (hz : S Item.zero)
 include hz
 
 /-- `for token.typ == itemComment { token = t.next() }`; `token` is held by the caller -/
 theorem skipComments_safe : ∀ (fuel : Nat) (token : Item) (st : FState) (Q : Item → FState → Prop),
-    S token → Inv EL S st.p → st.p.peekCount ≤ 1 → top st.p = token → mu st.p + real token + 1 ≤ fuel →
-    (∀ tok st', S tok → Inv EL S st'.p → st'.p.peekCount ≤ 1 → top st'.p = tok →
+    S token → InvW EL S st.p → st.p.peekCount ≤ 1 → top st.p = token → mu st.p + real token + 1 ≤ fuel →
+    (∀ tok st', S tok → InvW EL S st'.p → st'.p.peekCount ≤ 1 → top st'.p = tok →
       mu st'.p + real tok ≤ mu st.p + real token → Q tok st') →
-    FSafe AP S (skipComments fuel token) st Q := by
+    FSafe AP EL S (skipComments fuel token) st Q := by
   intro fuel
   induction fuel with
   | zero => intro token st Q _ _ _ _ h; omega
@@ -33,7 +33,7 @@ theorem skipComments_safe : ∀ (fuel : Nat) (token : Item) (st : FState) (Q : I
     · rename_i hc
       have hr := real_of_beq hc (by decide)
       apply FSafe.bind
-      apply fnext_safe hz hi
+      apply fnext_safe hz (upw% hi)
       intro t st1 hi1 hs1 hpc1 ht1 hm1 _
       apply ih t st1 Q hs1 hi1 (by omega) ht1 (by omega)
       intro tok st' a b c d e
@@ -43,9 +43,9 @@ theorem skipComments_safe : ∀ (fuel : Nat) (token : Item) (st : FState) (Q : I
 /-- `t.nextNonComment()` -/
 theorem nextNonComment_safe : ∀ (fuel : Nat) (st : FState) (Q : Item → FState → Prop),
     Inv EL S st.p → mu st.p + 1 ≤ fuel →
-    (∀ tok st', S tok → Inv EL S st'.p → st'.p.peekCount ≤ 1 → top st'.p = tok →
+    (∀ tok st', S tok → InvW EL S st'.p → st'.p.peekCount ≤ 1 → top st'.p = tok →
       mu st'.p + real tok ≤ mu st.p → Q tok st') →
-    FSafe AP S (nextNonComment fuel) st Q := by
+    FSafe AP EL S (nextNonComment fuel) st Q := by
   intro fuel
   induction fuel with
   | zero => intro st Q _ h; omega
@@ -60,16 +60,16 @@ theorem nextNonComment_safe : ∀ (fuel : Nat) (st : FState) (Q : Item → FStat
     · rename_i hc
       have hc' : tok.typ = .tComment := by simpa using hc
       have hr := real_of_eq hc' (by decide)
-      apply ih st1 Q hi1 (by omega)
+      apply ih st1 Q (upw% hi1) (by omega)
       intro tok' st' a b c d e
       exact hq tok' st' a b c d (by omega)
 
 /-- the text-merging loop of textOrTag -/
 theorem collectText_safe : ∀ (fuel : Nat) (text : Bytes) (st : FState) (Q : Bytes × Item → FState → Prop),
     Inv EL S st.p → mu st.p + 1 ≤ fuel →
-    (∀ txt nxt st', S nxt → Inv EL S st'.p → st'.p.peekCount ≤ 1 → top st'.p = nxt →
+    (∀ txt nxt st', S nxt → InvW EL S st'.p → st'.p.peekCount ≤ 1 → top st'.p = nxt →
       mu st'.p + real nxt ≤ mu st.p → Q (txt, nxt) st') →
-    FSafe AP S (collectText fuel text) st Q := by
+    FSafe AP EL S (collectText fuel text) st Q := by
   intro fuel
   induction fuel with
   | zero => intro text st Q _ h; omega
@@ -84,7 +84,7 @@ theorem collectText_safe : ∀ (fuel : Nat) (text : Bytes) (st : FState) (Q : By
     · rename_i hc
       have hc' : nxt.typ = .tText := by simpa using hc
       have hr := real_of_eq hc' (by decide)
-      apply ih _ st1 Q hi1 (by omega)
+      apply ih _ st1 Q (upw% hi1) (by omega)
       intro txt nxt' st' a b c d e
       exact hq txt nxt' st' a b c d (by omega)
 
@@ -93,7 +93,7 @@ theorem parseAttrs_safe (allowed : List Bytes) : ∀ (fuel : Nat) (res : List (B
     (Q : List (Bytes × Bytes) → FState → Prop),
     Inv EL S st.p → mu st.p + 1 ≤ fuel →
     (∀ r st', Inv EL S st'.p → mu st'.p ≤ mu st.p → Q r st') →
-    FSafe AP S (parseAttrs allowed fuel res) st Q := by
+    FSafe AP EL S (parseAttrs allowed fuel res) st Q := by
   intro fuel
   induction fuel with
   | zero => intro res st Q _ h; omega
@@ -109,10 +109,10 @@ theorem parseAttrs_safe (allowed : List Bytes) : ∀ (fuel : Nat) (res : List (B
       split
       · exact funexpected_safe hi1 hs1
       · apply FSafe.bind
-        apply fexpect_safe hz hi1
+        apply fexpect_safe hz (upw% hi1) (by decide)
         intro e st2 hi2 _ _ _ hm2 _
         apply FSafe.bind
-        apply fexpect_safe hz hi2
+        apply fexpect_safe hz hi2 (by decide)
         intro v st3 hi3 _ _ _ hm3 _
         split
         · apply ih _ st3 Q hi3 (by omega)
@@ -135,7 +135,7 @@ include hN hwf hlex
 theorem directiveArgs_safe : ∀ (fuel : Nat) (args : List Expr) (st : FState) (Q : List Expr → FState → Prop),
     Inv EL S st.p → mu st.p ≤ N → mu st.p + 1 ≤ fuel →
     (∀ r st', Inv EL S st'.p → mu st'.p ≤ mu st.p → Q r st') →
-    FSafe AP S (directiveArgs pf ef fuel args) st Q := by
+    FSafe AP EL S (directiveArgs pf ef fuel args) st Q := by
   intro fuel
   induction fuel with
   | zero => intro args st Q _ _ h; omega
@@ -147,7 +147,7 @@ theorem directiveArgs_safe : ∀ (fuel : Nat) (args : List Expr) (st : FState) (
     intro nxt st1 hi1 hs1 hpc1 ht1 hm1 _
     split
     · apply FSafe.bind
-      apply parseExpr0_safe hz pf ef N hN hwf hi1 (by omega)
+      apply parseExpr0_safe hz pf ef N hN hwf (upw% hi1) (by omega)
       intro e st2 hi2 hm2
       apply ih _ st2 Q hi2 (by omega) (by omega)
       intro r st' a b
@@ -161,7 +161,7 @@ theorem printLoop_safe (pos : Nat) (expr : Expr) : ∀ (fuel : Nat) (dirs : List
     (Q : Node → FState → Prop),
     Inv EL S st.p → mu st.p ≤ N → mu st.p + 1 ≤ fuel →
     (∀ r st', childOK r → Inv EL S st'.p → mu st'.p ≤ mu st.p → Q r st') →
-    FSafe AP S (printLoop pf ef pos expr fuel dirs) st Q := by
+    FSafe AP EL S (printLoop pf ef pos expr fuel dirs) st Q := by
   intro fuel
   induction fuel with
   | zero => intro dirs st Q _ _ h; omega
@@ -172,12 +172,12 @@ theorem printLoop_safe (pos : Nat) (expr : Expr) : ∀ (fuel : Nat) (dirs : List
     apply fnext_safe hz hi
     intro tok st1 hi1 hs1 hpc1 ht1 hm1 _
     split
-    · exact FSafe.pure (hq _ st1 trivial hi1 (by omega))
+    · exact FSafe.pure (hq _ st1 trivial (upw% hi1) (by omega))
     split
     · rename_i hc
       have hr := real_of_beq hc (by decide)
       apply FSafe.bind
-      apply fexpect_safe hz hi1
+      apply fexpect_safe hz (upw% hi1) (by decide)
       intro id st2 hi2 _ _ _ hm2 _
       apply FSafe.bind
       apply directiveArgs_safe hz pf ef N hN hwf hlex f [] st2 _ hi2 (by omega) (by omega)
@@ -190,7 +190,7 @@ theorem printLoop_safe (pos : Nat) (expr : Expr) : ∀ (fuel : Nat) (dirs : List
 theorem parsePrint_safe (fuel : Nat) (token : Item) (st : FState) (Q : Node → FState → Prop)
     (hi : Inv EL S st.p) (hn : mu st.p ≤ N) (hf : mu st.p + 1 ≤ fuel)
     (hq : ∀ r st', childOK r → Inv EL S st'.p → mu st'.p ≤ mu st.p → Q r st') :
-    FSafe AP S (parsePrint pf ef fuel token) st Q := by
+    FSafe AP EL S (parsePrint pf ef fuel token) st Q := by
   unfold parsePrint
   apply FSafe.bind
   apply parseExpr0_safe hz pf ef N hN hwf hi hn
@@ -203,7 +203,7 @@ omit hN hlex in
 theorem aliasLoop_safe : ∀ (fuel : Nat) (name seg : Bytes) (st : FState) (Q : Unit → FState → Prop),
     Inv EL S st.p → mu st.p + 1 ≤ fuel →
     (∀ st', Inv EL S st'.p → mu st'.p ≤ mu st.p → Q () st') →
-    FSafe AP S (aliasLoop fuel name seg) st Q := by
+    FSafe AP EL S (aliasLoop fuel name seg) st Q := by
   intro fuel
   induction fuel with
   | zero => intro name seg st Q _ h; omega
@@ -219,22 +219,22 @@ theorem aliasLoop_safe : ∀ (fuel : Nat) (name seg : Bytes) (st : FState) (Q : 
       apply FSafe.bind
       apply ftail1_safe (val_ne1 (hwf nxt hs1) (Or.inr (Or.inl (by simpa using hc))))
       intro _ sg _
-      apply ih _ _ st1 Q hi1 (by omega)
+      apply ih _ _ st1 Q (upw% hi1) (by omega)
       intro st' a b
       exact hq st' a (by omega)
     split
     · apply fmodify_safe
-      exact hq _ hi1 (by show mu st1.p ≤ mu st.p; omega)
+      exact hq _ (upw% hi1) (by show mu st1.p ≤ mu st.p; omega)
     · exact funexpected_safe hi1 hs1
 
 omit hN hlex in
 theorem parseAlias_safe (fuel : Nat) (st : FState) (Q : Unit → FState → Prop)
     (hi : Inv EL S st.p) (hf : mu st.p + 1 ≤ fuel)
     (hq : ∀ st', Inv EL S st'.p → mu st'.p ≤ mu st.p → Q () st') :
-    FSafe AP S (parseAlias fuel) st Q := by
+    FSafe AP EL S (parseAlias fuel) st Q := by
   unfold parseAlias
   apply FSafe.bind
-  apply fexpect_safe hz hi
+  apply fexpect_safe hz hi (by decide)
   intro name st1 hi1 _ _ _ hm1 _
   apply aliasLoop_safe hz hwf fuel _ _ st1 Q hi1 (by omega)
   intro st' a b
@@ -245,7 +245,7 @@ theorem soyDocLoop_safe (pos : Nat) : ∀ (fuel : Nat) (params : List SoyDocPara
     (Q : Node → FState → Prop),
     Inv EL S st.p → mu st.p + 1 ≤ fuel →
     (∀ r st', childOK r → Inv EL S st'.p → mu st'.p ≤ mu st.p → Q r st') →
-    FSafe AP S (soyDocLoop pos fuel params) st Q := by
+    FSafe AP EL S (soyDocLoop pos fuel params) st Q := by
   intro fuel
   induction fuel with
   | zero => intro params st Q _ h; omega
@@ -258,24 +258,24 @@ theorem soyDocLoop_safe (pos : Nat) : ∀ (fuel : Nat) (params : List SoyDocPara
     split
     · rename_i hc
       have hr := real_of_beq hc (by decide)
-      apply ih _ st1 Q hi1 (by omega)
+      apply ih _ st1 Q (upw% hi1) (by omega)
       intro r st' c a b
       exact hq r st' c a (by omega)
     split
     · apply FSafe.bind
-      apply fexpect_safe hz hi1
+      apply fexpect_safe hz (upw% hi1) (by decide)
       intro ident st2 hi2 _ _ _ hm2 hty
       have hr := real_of_eq hty (by decide)
       apply ih _ st2 Q hi2 (by omega)
       intro r st' c a b
       exact hq r st' c a (by omega)
     split
-    · exact FSafe.pure (hq _ st1 trivial hi1 (by omega))
+    · exact FSafe.pure (hq _ st1 trivial (upw% hi1) (by omega))
     · exact funexpected_safe hi1 hs1
 
 omit hN hwf hlex in
 theorem parseAutoescape_safe (attrs : List (Bytes × Bytes)) (st : FState) (Q : Autoescape → FState → Prop)
-    (hi : Inv EL S st.p) (hq : ∀ r, Q r st) : FSafe AP S (parseAutoescape attrs) st Q := by
+    (hi : Inv EL S st.p) (hq : ∀ r, Q r st) : FSafe AP EL S (parseAutoescape attrs) st Q := by
   unfold parseAutoescape
   simp only
   split
@@ -293,7 +293,7 @@ theorem parseAutoescape_safe (attrs : List (Bytes × Bytes)) (st : FState) (Q : 
 omit hN hwf hlex in
 theorem boolAttr_safe (attrs : List (Bytes × Bytes)) (key : Bytes) (d : Bool) (st : FState)
     (Q : Bool → FState → Prop) (hi : Inv EL S st.p) (hq : ∀ r, Q r st) :
-    FSafe AP S (boolAttr attrs key d) st Q := by
+    FSafe AP EL S (boolAttr attrs key d) st Q := by
   unfold boolAttr
   split
   · exact FSafe.pure (hq _)
@@ -307,7 +307,7 @@ omit hN hwf hlex in
 theorem namespaceLoop_safe (pos : Nat) : ∀ (fuel : Nat) (name : Bytes) (st : FState) (Q : Node → FState → Prop),
     Inv EL S st.p → mu st.p + 2 ≤ fuel →
     (∀ r st', childOK r → Inv EL S st'.p → mu st'.p ≤ mu st.p → Q r st') →
-    FSafe AP S (namespaceLoop pos fuel name) st Q := by
+    FSafe AP EL S (namespaceLoop pos fuel name) st Q := by
   intro fuel
   induction fuel with
   | zero => intro name st Q _ h; omega
@@ -320,7 +320,7 @@ theorem namespaceLoop_safe (pos : Nat) : ∀ (fuel : Nat) (name : Bytes) (st : F
     split
     · rename_i hc
       have hr := real_of_beq hc (by decide)
-      apply ih _ st1 Q hi1 (by omega)
+      apply ih _ st1 Q (upw% hi1) (by omega)
       intro r st' c a b
       exact hq r st' c a (by omega)
     · apply FSafe.bind
@@ -334,7 +334,7 @@ theorem namespaceLoop_safe (pos : Nat) : ∀ (fuel : Nat) (name : Bytes) (st : F
       apply parseAutoescape_safe hz attrs st3 _ hi3
       intro ae
       apply FSafe.bind
-      apply fexpect_safe hz hi3
+      apply fexpect_safe hz hi3 (by decide)
       intro rd st4 hi4 _ _ _ hm4 _
       apply FSafe.bind
       apply fmodify_safe
@@ -344,14 +344,14 @@ omit hN hwf hlex in
 theorem parseNamespace_safe (fuel : Nat) (token : Item) (st : FState) (Q : Node → FState → Prop)
     (hi : Inv EL S st.p) (hf : mu st.p + 1 ≤ fuel)
     (hq : ∀ r st', childOK r → Inv EL S st'.p → mu st'.p ≤ mu st.p → Q r st') :
-    FSafe AP S (parseNamespace fuel token) st Q := by
+    FSafe AP EL S (parseNamespace fuel token) st Q := by
   unfold parseNamespace
   apply FSafe.bind
   apply fget_safe
   split
   · exact ferrorf_safe hi
   · apply FSafe.bind
-    apply fexpect_safe hz hi
+    apply fexpect_safe hz hi (by decide)
     intro name st1 hi1 _ _ _ hm1 hty
     have hr := real_of_eq hty (by decide)
     apply namespaceLoop_safe hz _ fuel _ st1 Q hi1 (by omega)
@@ -361,17 +361,17 @@ theorem parseNamespace_safe (fuel : Nat) (token : Item) (st : FState) (Q : Node 
 theorem parseHeaderParam_safe (token : Item) (st : FState) (Q : Node → FState → Prop)
     (hi : Inv EL S st.p) (hn : mu st.p ≤ N)
     (hq : ∀ r st', childOK r → Inv EL S st'.p → mu st'.p ≤ mu st.p → Q r st') :
-    FSafe AP S (parseHeaderParam pf ef token) st Q := by
+    FSafe AP EL S (parseHeaderParam pf ef token) st Q := by
   unfold parseHeaderParam
   simp only
   apply FSafe.bind
-  apply fexpect_safe hz hi
+  apply fexpect_safe hz hi (by decide)
   intro name st1 hi1 _ _ _ hm1 _
   apply FSafe.bind
-  apply fexpect_safe hz hi1
+  apply fexpect_safe hz hi1 (by decide)
   intro c st2 hi2 _ _ _ hm2 _
   apply FSafe.bind
-  apply fexpect_safe hz hi2
+  apply fexpect_safe hz hi2 (by decide)
   intro typ st3 hi3 _ _ _ hm3 _
   apply FSafe.bind
   apply fnext_safe hz hi3
@@ -379,11 +379,11 @@ theorem parseHeaderParam_safe (token : Item) (st : FState) (Q : Node → FState 
   apply FSafe.bind
   split
   · apply FSafe.bind
-    apply parseExpr0_safe hz pf ef N hN hwf hi4 (by omega)
+    apply parseExpr0_safe hz pf ef N hN hwf (upw% hi4) (by omega)
     intro e st5 hi5 hm5
     apply FSafe.pure
     apply FSafe.bind
-    apply fexpect_safe hz hi5
+    apply fexpect_safe hz hi5 (by decide)
     intro rd st6 hi6 _ _ _ hm6 _
     exact FSafe.pure (hq _ st6 trivial hi6 (by omega))
   · apply FSafe.bind
@@ -392,7 +392,7 @@ theorem parseHeaderParam_safe (token : Item) (st : FState) (Q : Node → FState 
     rw [ht4] at hm5
     apply FSafe.pure
     apply FSafe.bind
-    apply fexpect_safe hz hi5
+    apply fexpect_safe hz hi5 (by decide)
     intro rd st6 hi6 _ _ _ hm6 _
     exact FSafe.pure (hq _ st6 trivial hi6 (by omega))
 
@@ -400,13 +400,13 @@ omit hN hwf in
 theorem parseCss_safe (token : Item) (st : FState) (Q : Node → FState → Prop)
     (hi : Inv EL S st.p)
     (hq : ∀ r st', childOK r → Inv EL S st'.p → mu st'.p ≤ mu st.p → Q r st') :
-    FSafe AP S (parseCss pf token) st Q := by
+    FSafe AP EL S (parseCss pf token) st Q := by
   unfold parseCss
   apply FSafe.bind
-  apply fexpect_safe hz hi
+  apply fexpect_safe hz hi (by decide)
   intro txt st1 hi1 _ _ _ hm1 _
   apply FSafe.bind
-  apply fexpect_safe hz hi1
+  apply fexpect_safe hz hi1 (by decide)
   intro rd st2 hi2 _ _ _ hm2 _
   split
   · exact FSafe.pure (hq _ st2 trivial hi2 (by omega))
@@ -419,7 +419,7 @@ omit hN hwf hlex in
 theorem callNameLoop_safe : ∀ (fuel : Nat) (name : Bytes) (st : FState) (Q : Bytes → FState → Prop),
     Inv EL S st.p → mu st.p + 1 ≤ fuel →
     (∀ r st', Inv EL S st'.p → mu st'.p ≤ mu st.p → Q r st') →
-    FSafe AP S (callNameLoop fuel name) st Q := by
+    FSafe AP EL S (callNameLoop fuel name) st Q := by
   intro fuel
   induction fuel with
   | zero => intro name st Q _ h; omega
@@ -432,7 +432,7 @@ theorem callNameLoop_safe : ∀ (fuel : Nat) (name : Bytes) (st : FState) (Q : B
     split
     · rename_i hc
       have hr := real_of_beq hc (by decide)
-      apply ih _ st1 Q hi1 (by omega)
+      apply ih _ st1 Q (upw% hi1) (by omega)
       intro r st' a b
       exact hq r st' a (by omega)
     · apply FSafe.bind
@@ -445,7 +445,7 @@ omit hN hwf in
 theorem parseCallHead_safe (fuel : Nat) (st : FState) (Q : Bytes × Bool × Option Expr → FState → Prop)
     (hi : Inv EL S st.p) (hf : mu st.p + 1 ≤ fuel)
     (hq : ∀ r st', Inv EL S st'.p → mu st'.p ≤ mu st.p → Q r st') :
-    FSafe AP S (parseCallHead pf fuel) st Q := by
+    FSafe AP EL S (parseCallHead pf fuel) st Q := by
   unfold parseCallHead
   apply FSafe.bind
   apply fnext_safe hz hi
@@ -453,19 +453,19 @@ theorem parseCallHead_safe (fuel : Nat) (st : FState) (Q : Bytes × Bool × Opti
   apply FSafe.bind
   apply FSafe.mono (Q := fun _ st' => Inv EL S st'.p ∧ mu st'.p ≤ mu st.p)
   · split
-    · exact FSafe.pure ⟨hi1, by omega⟩
+    · exact FSafe.pure ⟨(upw% hi1), by omega⟩
     split
     · rename_i hident
       have hident' : tok.typ = .tIdent := by simpa using hident
       apply FSafe.bind
-      apply fnext_safe hz hi1
+      apply fnext_safe hz (upw% hi1)
       intro tok2 st2 hi2 hs2 hpc2 ht2 hm2 _
       split
-      · apply callNameLoop_safe hz fuel _ st2 _ hi2 (by omega)
+      · apply callNameLoop_safe hz fuel _ st2 _ (upw% hi2) (by omega)
         intro r st' a b
         exact ⟨a, by omega⟩
       · apply FSafe.bind
-        apply fbackup2_safe hi2 hs1 (by rw [hident']; decide) (by have := hi.1; omega)
+        apply fbackup2_safe hi2 hs1 (by rw [hident']; decide) (fun _ => real_valid (real_of_eq hident' (by decide))) (by have := hi.1; omega)
         intro st3 hi3 hm3 _
         exact FSafe.pure ⟨hi3, by rw [ht2] at hm3; omega⟩
     · apply FSafe.bind
@@ -512,7 +512,7 @@ theorem pluralCases_safe : ∀ (n : Nat) (cs acc : NodeList) (d : Option Node) (
     (Q : NodeList × Option Node → FState → Prop), cs.length = n → casesOK cs → pcasesOK acc →
     (∀ d0, d = some d0 → listOK d0) → Inv EL S st.p →
     (∀ r, pcasesOK r.1 → (∀ d0, r.2 = some d0 → listOK d0) → Q r st) →
-    FSafe AP S (pluralCases cs acc d) st Q := by
+    FSafe AP EL S (pluralCases cs acc d) st Q := by
   intro n
   induction n with
   | zero =>
